@@ -77,7 +77,8 @@ CliqueLatents(G) ==
        ord(S) == IF S = {} THEN <<>> ELSE LET e == Pick(S) IN <<e>> \o ord(S \ {e})
    IN ord(mx)
 
-Model(G, lat, card, tag, seed) == [g |-> G, lat |-> lat, card |-> card, tag |-> tag, seed |-> seed]
+Model(G, lat, card, tag, seed)  == [g |-> G, lat |-> lat, card |-> card, tag |-> tag, seed |-> seed, fam |-> "S"]
+ModelF(G, lat, card, tag, seed) == [g |-> G, lat |-> lat, card |-> card, tag |-> tag, seed |-> seed, fam |-> "F"]
 Binary(G) == [v \in G.n |-> 2]
 NoTag(G)  == [v \in G.n |-> 0]
 
@@ -103,7 +104,51 @@ PU(M, k, val) == LET h == H(M.seed, 1000 + k, 0) IN IF val = 1 THEN h ELSE Sub(1
 Wt(M, a, u, X) == Mul(ProdF(LAMBDA v : PV(M, v, a[v], a, u), M.g.n \ X),
                       ProdF(LAMBDA k : PU(M, k, u[k]), DOMAIN M.lat))
 \* table a |-> P(V \ X = a | do(X = a|X)), as an explicit function
-JointDo(M, X) == TLCEval([a \in Assign(M) |-> SumF(LAMBDA u : Wt(M, a, u, X), UAssign(M))])
+JointDoS(M, X) == TLCEval([a \in Assign(M) |-> SumF(LAMBDA u : Wt(M, a, u, X), UAssign(M))])
+
+(***************************************************************************)
+(* Family F (functional models, needed for counterfactuals).  Every node v *)
+(* has an exogenous noise eps_v in 0..2 with generic weights, a binary     *)
+(* latent per latent slot, and a deterministic mechanism                   *)
+(*    v := F(v, parents, latents, eps_v)  in {0, 1}                        *)
+(* read from the hash and non-constant in eps_v for every argument (keeps  *)
+(* every kernel generic without restricting the cross-world coupling).     *)
+(* A world is a set of <<node, value>> interventions; the same (u, eps)    *)
+(* is solved in every world.  Binary variables only.                       *)
+(***************************************************************************)
+KNoise == 3
+EpsAssign(M) == [M.g.n -> 0..(KNoise - 1)]
+Pat(M, v, c) == 1 + (H(M.seed, 300 + M.tag[v] * 37 + v, c) % 6)      \* the six non-constant 3-bit patterns
+Fn(M, v, c, e) == (Pat(M, v, c) \div (IF e = 0 THEN 1 ELSE IF e = 1 THEN 2 ELSE 4)) % 2
+EpsW(M, v, e) == LET h(j) == H(M.seed, 400 + M.tag[v] * 41 + v, j) IN
+                 IF e < KNoise - 1 THEN h(e) ELSE Sub(1, SumF(h, 0..(KNoise - 2)))
+WtF(M, u, eps) == Mul(ProdF(LAMBDA v : EpsW(M, v, eps[v]), M.g.n),
+                      ProdF(LAMBDA k : PU(M, k, u[k]), DOMAIN M.lat))
+RECURSIVE SolveSeq(_, _, _, _, _, _)
+SolveSeq(M, w, u, eps, order, acc) ==
+  IF order = <<>> THEN acc
+  ELSE LET v == Head(order)
+           forced == {p \in w : p[1] = v}
+           val == IF forced # {} THEN (Pick(forced))[2] ELSE Fn(M, v, Code(M, v, acc, u), eps[v])
+       IN SolveSeq(M, w, u, eps, Tail(order), [acc EXCEPT ![v] = val])
+Solve(M, w, u, eps) == SolveSeq(M, w, u, eps, TopoMin(M.g), [v \in M.g.n |-> 0])
+UEps(M) == UAssign(M) \X EpsAssign(M)
+\* all worlds over the intervention set X (binary values)
+WorldsOn(X) == {{<<x, f[x]>> : x \in X} : f \in [X -> {0, 1}]}
+\* solution table of a set of worlds: [world -> [<<u, eps>> -> solution]]
+SolTable(M, worlds) == TLCEval([w \in worlds |-> TLCEval([ue \in UEps(M) |-> Solve(M, w, ue[1], ue[2])])])
+WtTable(M) == TLCEval([ue \in UEps(M) |-> WtF(M, ue[1], ue[2])])
+\* interventional joint of a functional model, same interface as JointDoS
+JointDoF(M, X) ==
+  LET T == SolTable(M, WorldsOn(X))
+      wt == WtTable(M)
+  IN TLCEval([a \in Assign(M) |->
+        LET w == {<<x, a[x]>> : x \in X} IN
+        SumF(LAMBDA ue : wt[ue], {ue \in UEps(M) : T[w][ue] = a})])
+JointDo(M, X) == IF M.fam = "F" THEN JointDoF(M, X) ELSE JointDoS(M, X)
+\* probability of a conjunction of counterfactual atoms <<world, node, value>> (worlds solved on shared noise)
+PrAtomsF(M, T, wt, atoms) ==
+  SumF(LAMBDA ue : wt[ue], {ue \in UEps(M) : \A a \in atoms : T[a[1]][ue][a[2]] = a[3]})
 
 \* a constraint set is a set of <<node, value>> pairs; inconsistent sets have probability 0
 Consistent(cons) == \A c1, c2 \in cons : c1[1] = c2[1] => c1[2] = c2[2]
@@ -206,12 +251,29 @@ WellScoped(e) ==
 (* table]]; env assigns a value to every name.  All models of a bundle     *)
 (* have the same node set and cardinalities.                               *)
 (***************************************************************************)
-Bundle(models, dos) == [m |-> TLCEval(models), envs |-> TLCEval(Assign(models[0])),
-                        J |-> TLCEval([px \in dos |-> JointDo(models[px[1]], px[2])])]
+Bundle(models, dos) ==
+  [m |-> TLCEval(models), envs |-> TLCEval(Assign(models[0])),
+   J |-> TLCEval([px \in dos |-> JointDo(models[px[1]], px[2])]),
+   \* functional models: solution tables of every world over every intervention set in dos (per population)
+   T |-> TLCEval([p \in DOMAIN models |->
+           IF models[p].fam = "F"
+           THEN SolTable(models[p], UNION {WorldsOn(px[2]) : px \in {q \in dos : q[1] = p}} \cup {{}})
+           ELSE <<>>]),
+   wt |-> TLCEval([p \in DOMAIN models |-> IF models[p].fam = "F" THEN WtTable(models[p]) ELSE <<>>])]
 Envs(W)  == W.envs
 ValOf(W, n, s, env) == IF s = 2 THEN Alt(W.m[0], n, env[n]) ELSE env[n]
 
-PTerm(W, e, env) ==
+\* a term whose variables live in several worlds: a counterfactual joint, meaningful in family F only
+WorldOf(W, v, env) == {<<i[1], ValOf(W, i[1], i[2], env)>> : i \in ToSet(v.iv)}
+AtomsOf(W, S, env) == {<<WorldOf(W, v, env), v.n, ValOf(W, v.n, v.s, env)>> : v \in S}
+PTermMulti(W, e, env) ==
+  LET M == W.m[e.pop]
+      pr(S) == PrAtomsF(M, W.T[e.pop], W.wt[e.pop], AtomsOf(W, S, env))
+      den == IF e.pa = <<>> THEN 1 ELSE pr(ToSet(e.pa))
+  IN IF M.fam # "F" THEN Assert(FALSE, "multi-world term in a stochastic model")
+     ELSE IF den = 0 THEN Undef ELSE Mul(pr(TermVars(e)), Inv(den))
+
+PTermSingle(W, e, env) ==
   LET vars == TermVars(e)
       any  == Pick(vars)
       X    == IvNames(any)
@@ -222,6 +284,9 @@ PTerm(W, e, env) ==
   IN IF vars = {} THEN 1
      ELSE IF den = 0 THEN Undef
      ELSE Mul(PrCons(J, cons(vars)), Inv(den))
+
+PTerm(W, e, env) == IF Cardinality({ToSet(v.iv) : v \in TermVars(e)}) > 1 THEN PTermMulti(W, e, env)
+                    ELSE PTermSingle(W, e, env)
 
 \* an uninterpreted generic function of the values of dom and cod
 QTerm(W, e, env) ==
